@@ -96,6 +96,35 @@ class RealA:
             except Exception:
                 pass
 
+    def open(self, create=False):
+        """the storage kinds: plain, blob-capable (native and through the BlobStorage proxy), HexStorage-wrapped,
+        built from a configuration section with non-default options"""
+        import ZODB.blob
+        import ZODB.config
+        from ZODB.tests.hexstorage import HexStorage
+        v, p = self.variant, self.path
+        if v == 'file':
+            return FileStorage(p, create=create)
+        if v == 'blobfile':
+            return FileStorage(p, create=create, blob_dir=p + '.blobs')
+        if v == 'blobwrap':
+            return ZODB.blob.BlobStorage(p + '.wblobs', FileStorage(p, create=create))
+        if v == 'hexfile':
+            return HexStorage(FileStorage(p, create=create, pack_keep_old=False))
+        if v == 'cfgfile':
+            return ZODB.config.storageFromString(
+                '<filestorage>\n path %s\n create %s\n pack-keep-old false\n</filestorage>'
+                % (p, 'true' if create else 'false'))
+        if v == 'mapping':
+            return MappingStorage()
+        if v == 'hexmapping':
+            return HexStorage(MappingStorage())
+        if v == 'cfgmapping':
+            return ZODB.config.storageFromString('<mappingstorage>\n</mappingstorage>')
+        if v == 'blobwrapmapping':
+            return ZODB.blob.BlobStorage(p + '.wblobs', MappingStorage())
+        raise InfraError('variant %r' % v)
+
     def ensure_txn(self):
         if self.txn is None:
             self.k += 1
@@ -112,14 +141,12 @@ class RealA:
         if c == 'reset':
             self.close()
             self.kind = t[1]
+            self.variant = t[2] if len(t) > 2 else t[1]
             self.nfile += 1
             self.txn, self.cur, self.staged = None, {}, {}
-            if self.kind == 'file':
-                self.path = os.path.join(self.dir, 'a%d.fs' % self.nfile)
-                self.s = FileStorage(self.path, create=True)
-            else:
-                self.s = MappingStorage()
-            return 'ok', op
+            self.path = os.path.join(self.dir, 'a%d.fs' % self.nfile)
+            self.s = self.open(True)
+            return 'ok', 'reset ' + self.kind
         if c == 'newoid':
             try:
                 return s.new_oid().hex(), op
@@ -138,7 +165,9 @@ class RealA:
             data = pickle_refs(self.k, refs)
             try:
                 if c == 'restore':
-                    s.restore(p64(o), self.tid, data, '', None, self.txn)
+                    # with and without the prev_txn hint (a transaction that holds an earlier record of the oid)
+                    prev = self.cur.get(o) if (o in self.cur and (self.k + o) % 2) else None
+                    s.restore(p64(o), self.tid, data, '', prev, self.txn)
                 else:
                     s.store(p64(o), self.cur.get(o, z64), data, '', self.txn)
                 self.staged[o] = self.tid
@@ -170,6 +199,38 @@ class RealA:
             except Exception:
                 pass
             return 'ok', 'begin'
+        if c == 'emptytxn':
+            # an empty transaction: nothing for the counter (model: no-op)
+            if self.txn is None:
+                self.ensure_txn()
+                s.tpc_vote(self.txn)
+                s.tpc_finish(self.txn)
+                self.last_tid = self.tid
+                self.txn, self.staged = None, {}
+            return 'ok', 'begin'
+        if c == 'copyfrom':
+            # copyTransactionsFrom a source holding records with arbitrary (large, ASCII, high-bit) oids:
+            # restore() on the destination.  Model: restore + finish per source transaction.
+            if self.kind != 'file' or self.txn is not None:
+                return 'ok', 'begin'
+            src = MappingStorage('src') if t[1] == 'm' else FileStorage(os.path.join(self.dir, 'src%d.fs' % self.k),
+                                                                          create=True)
+            lines = []
+            for grp in t[2].split(';'):
+                self.k += 1
+                tx = TransactionMetaData()
+                src.tpc_begin(tx, tid_of(self.k))
+                for h in grp.split(','):
+                    src.store(p64(int(h, 16)), z64, pickle_refs(self.k, []), '', tx)
+                    self.cur[int(h, 16)] = tid_of(self.k)
+                    lines.append('restore ' + h)
+                src.tpc_vote(tx)
+                src.tpc_finish(tx)
+                lines.append('finish')
+                self.last_tid = tid_of(self.k)
+            s.copyTransactionsFrom(src)
+            src.close()
+            return 'ok', '\n'.join(lines)
         if c == 'setmax':
             if self.kind != 'file':
                 return 'err:Unsupported', op
@@ -199,8 +260,7 @@ class RealA:
                 s.pack(time.time(), referencesf)
             except Exception as e:
                 return 'err:Other(%s)' % type(e).__name__, '\n'.join(pre + ['begin'])
-            keep = sorted({u64(r.oid) for tx in s.iterator() for r in tx}) if self.kind == 'mapping' \
-                else sorted(u64(k) for k in s._index.keys())
+            keep = sorted({u64(r.oid) for tx in s.iterator() for r in tx})
             self.cur = {o: tid for o, tid in self.cur.items() if o in keep}
             self.last_tid = None
             if self.path and os.path.exists(self.path + '.index.prev'):
@@ -228,7 +288,7 @@ class RealA:
                 os.remove(ix)
             elif 'stale' in t[1:] and os.path.exists(prev):
                 shutil.copyfile(prev, ix)
-            self.s = FileStorage(self.path)
+            self.s = self.open()
             return 'ok', 'abort\nreopen'
         if c == 'reopen':
             if self.kind != 'file':
@@ -247,60 +307,101 @@ class RealA:
             if newer is not None:
                 with open(prev, 'wb') as f:
                     f.write(newer)
-            self.s = FileStorage(self.path)
+            self.s = self.open()
             return 'ok', 'reopen'
         return 'bad-op', op
 
 
-def run_real_a(ops, tmp):
-    d = os.path.join(tmp, 'a')
-    shutil.rmtree(d, ignore_errors=True)
-    os.makedirs(d)
-    r = RealA(d)
-    obs, mops, verdicts = [], [], []
-    issued = set()
-    try:
-        for op in ops:
-            c = op.split()[0]
-            if c == 'reset' or (c in ('reopen', 'crash') and r.kind == 'file'):
-                if not (c == 'crash' and (r.txn is None or not r.staged)):
-                    issued = set()
-            before = None
-            if c == 'newoid':
-                before = present_oids(r.s) | set(r.staged)
-                newest = {}
-                for tx in r.s.iterator():
-                    for rec in tx:
-                        newest[u64(rec.oid)] = rec.data
-            o, m = r.do(op)
-            obs.append(o)
-            mops.append(m)
-            bad = None
-            if c == 'newoid' and not o.startswith('err:'):
-                oid = int(o, 16)
-                if oid in issued:
-                    bad = 'new_oid returned %s, already issued in this open session' % o
-                elif oid in before and oid in newest and newest[oid] is None:
-                    bad = ('new_oid returned %s, an un-created oid: its newest record is an un-creation / deletion, '
-                           'its revisions are present' % o)
-                elif oid in before:
-                    bad = 'new_oid returned %s, an oid with a record present (or being written)' % o
-                issued.add(oid)
-            elif c == 'newoid' and o != 'err:Overflow':
-                bad = 'new_oid failed with %s' % o
-            verdicts.append(bad)
-    finally:
-        r.close()
+class RunA:
+    """one allocation history on one storage, executed step by step (so that two can be interleaved)"""
+
+    def __init__(self, ops, d):
         shutil.rmtree(d, ignore_errors=True)
-    return obs, mops, verdicts
+        os.makedirs(d)
+        self.ops, self.d, self.i = ops, d, 0
+        self.r = RealA(d)
+        self.obs, self.mops, self.verdicts = [], [], []
+        self.issued = set()
+
+    def done(self):
+        return self.i >= len(self.ops)
+
+    def step(self):
+        r, op = self.r, self.ops[self.i]
+        self.i += 1
+        c = op.split()[0]
+        if c == 'reset' or (c in ('reopen', 'crash') and r.kind == 'file'):
+            if not (c == 'crash' and (r.txn is None or not r.staged)):
+                self.issued = set()
+        before = None
+        if c == 'newoid':
+            before = present_oids(r.s) | set(r.staged)
+            newest = {}
+            for tx in r.s.iterator():
+                for rec in tx:
+                    newest[u64(rec.oid)] = rec.data
+        try:
+            o, m = r.do(op)
+        except InfraError:
+            raise
+        except Exception as e:
+            o, m = 'err:Other(%s)' % type(e).__name__, 'begin'
+        self.obs.append(o)
+        self.mops.append(m)
+        bad = None
+        if c == 'newoid' and not o.startswith('err:'):
+            oid = int(o, 16)
+            if oid in self.issued:
+                bad = 'new_oid returned %s, already issued in this open session' % o
+            elif oid in before and oid in newest and newest[oid] is None:
+                bad = ('new_oid returned %s, an un-created oid: its newest record is an un-creation / deletion, '
+                       'its revisions are present' % o)
+            elif oid in before:
+                bad = 'new_oid returned %s, an oid with a record present (or being written)' % o
+            self.issued.add(oid)
+        elif c == 'newoid' and o != 'err:Overflow':
+            bad = 'new_oid failed with %s' % o
+        self.verdicts.append(bad)
+
+    def close(self):
+        self.r.close()
+        shutil.rmtree(self.d, ignore_errors=True)
+
+
+def run_real_a(ops, tmp):
+    x = RunA(ops, os.path.join(tmp, 'a'))
+    try:
+        while not x.done():
+            x.step()
+    finally:
+        x.close()
+    return x.obs, x.mops, x.verdicts
+
+
+def run_real_a_pair(ops1, ops2, tmp, rng):
+    """two storages alive in one process, their histories interleaved step by step: neither may be
+    influenced by the other (class-level or module-level state shared between instances)"""
+    x, y = RunA(ops1, os.path.join(tmp, 'a1')), RunA(ops2, os.path.join(tmp, 'a2'))
+    try:
+        while not (x.done() and y.done()):
+            z = rng.choice([q for q in (x, y) if not q.done()])
+            z.step()
+    finally:
+        x.close()
+        y.close()
+    return (x.obs, x.mops, x.verdicts), (y.obs, y.mops, y.verdicts)
 
 
 SPECIAL = [0, 1, 2, 3, 0xfe, 0xff, 0x100, 0x101, 0xffff, 0x10000, 0x3030303030303030, 0x4142434445464748,
            2 ** 32, 2 ** 48 - 1, 2 ** 63, TOP - 0x100, TOP - 2, TOP - 1, TOP]
 
 
+FILE_VARIANTS = ['file', 'file', 'blobfile', 'blobwrap', 'hexfile', 'cfgfile']
+MAPPING_VARIANTS = ['mapping', 'mapping', 'hexmapping', 'cfgmapping', 'blobwrapmapping']
+
+
 def gen_a(rng, kind):
-    ops = ['reset ' + kind]
+    ops = ['reset %s %s' % (kind, rng.choice(FILE_VARIANTS if kind == 'file' else MAPPING_VARIANTS))]
     known = [0]
     st = dict(committed=set(), staged=set(), deleted=set(), last=set())
     n = rng.choice([6, 12, 25, 40])
@@ -337,8 +438,25 @@ def gen_a(rng, kind):
         elif r < 0.76:
             ops.append('abort')
             st['staged'] = set()
-        elif r < 0.79 and kind == 'file':
+        elif r < 0.78 and kind == 'file':
             ops.append('setmax %s' % hex8(rng.choice(SPECIAL[:14] + [rng.randrange(1, 5000)])))
+        elif r < 0.785:
+            finish()
+            ops.append('emptytxn')
+        elif r < 0.80 and kind == 'file':
+            # records copied in from another storage (copyTransactionsFrom -> restore), arbitrary ids
+            finish()
+            pool = (SPECIAL if big else SPECIAL[:14]) + [2 ** 63 + 7, 0x8000000000000001, 0x4142434445464749]
+            if not big:
+                pool = [x for x in pool if x < TOP - 0x200]
+            picks = sorted({min(max(rng.choice(pool) + rng.choice([0, 0, 1, 3]), 1), TOP)
+                            for _ in range(rng.choice([1, 2, 4]))})
+            half = max(1, len(picks) // 2)
+            groups = [picks[:half]] + ([picks[half:]] if picks[half:] else [])
+            ops.append('copyfrom %s %s' % (rng.choice('mf'), ';'.join(','.join(hex8(x) for x in g) for g in groups)))
+            st['committed'] |= set(picks)
+            st['last'] = set(groups[-1])
+            known.extend(picks)
         elif r < 0.83 and kind == 'file' and (st['committed'] - {0}):
             # un-create an object (preferably the one with the largest oid), or undo the newest transaction
             # (un-creation records for what it created); then often reopen (scan / stale index) and allocate
@@ -591,7 +709,8 @@ class LoggedNewOid:
 
 
 def run_conn_case(rng, tmp, idx):
-    kind = rng.choice(['file', 'mapping', 'demo-file', 'demo-mapping'])
+    kind = rng.choice(['file', 'mapping', 'demo-file', 'demo-mapping', 'blobfile', 'hexfile', 'mvcc', 'demo-temp',
+                       'demo-push', 'cfgfile'])
     d = os.path.join(tmp, 'c%d' % idx)
     os.makedirs(d, exist_ok=True)
     DEMO_MODULE.random = SeededDraws(rng.randrange(10 ** 9))
@@ -600,8 +719,19 @@ def run_conn_case(rng, tmp, idx):
     def make():
         if kind == 'file':
             return FileStorage(path)
+        if kind == 'blobfile':
+            return FileStorage(path, blob_dir=path + '.blobs')
+        if kind == 'hexfile':
+            from ZODB.tests.hexstorage import HexStorage
+            return HexStorage(FileStorage(path))
+        if kind == 'cfgfile':
+            from ZODB.config import storageFromString
+            return storageFromString('<filestorage>\n path %s\n blob-dir %s.blobs\n</filestorage>' % (path, path))
         if kind == 'mapping':
             return MappingStorage()
+        if kind == 'mvcc':
+            from ZODB.tests.MVCCMappingStorage import MVCCMappingStorage
+            return MVCCMappingStorage()
         base = FileStorage(os.path.join(d, 'base.fs')) if kind == 'demo-file' else MappingStorage()
         if not len(base):
             db0 = ZODB.DB(base)
@@ -612,17 +742,26 @@ def run_conn_case(rng, tmp, idx):
             c0.close()
             db0.close()
             base = FileStorage(os.path.join(d, 'base.fs')) if kind == 'demo-file' else base
-        if kind == 'demo-mapping':
+        if kind != 'demo-file':
             base._opened = True
+        if kind == 'demo-temp':
+            return DemoStorage(base=base)                       # implicit changes, made blob-capable on demand
+        if kind == 'demo-push':
+            return DemoStorage(base=base, changes=MappingStorage()).push()
         return DemoStorage(base=base, changes=FileStorage(path))
     bad = None
     steps = []
+    file_like = kind in ('file', 'blobfile', 'hexfile', 'cfgfile')
+    blobs = kind in ('blobfile', 'cfgfile', 'demo-temp', 'demo-push')
+    exported = [None]
     try:
         st = make()
         lg = LoggedNewOid(st)
         db = ZODB.DB(st)
         tm = transaction.TransactionManager()
         conn = db.open(tm)
+        tm2 = transaction.TransactionManager()
+        conn2 = db.open(tm2)                  # a second connection on the same database
         seen = 0
         issued = set()
         present = present_oids(st)
@@ -642,16 +781,47 @@ def run_conn_case(rng, tmp, idx):
             r = rng.random()
             n += 1
             root = conn.root()
-            if r < 0.3:
+            if r < 0.22:
                 o = MinPO(n)
                 root['k%d' % rng.randrange(6)] = o
                 if rng.random() < 0.5:
                     conn.add(o)                     # Connection.add -> new_oid right away
                 steps.append('add')
+            elif r < 0.26:
+                conn.new_oid()                      # an id taken directly (never stored)
+                steps.append('new_oid')
+            elif r < 0.32:
+                # the other connection adds and commits in between
+                tm2.begin()
+                o2 = MinPO(n)
+                conn2.root()['c2-%d' % rng.randrange(4)] = o2
+                conn2.add(o2)
+                check('conn2-add')
+                try:
+                    tm2.commit()
+                except POSException.ConflictError:
+                    tm2.abort()
+                check('conn2-commit')
+                present = present_oids(st)
+                steps.append('conn2')
+            elif r < 0.37 and blobs:
+                from ZODB.blob import Blob
+                b = Blob()
+                with b.open('w') as f:
+                    f.write(b'blob %d' % n)
+                root['blob%d' % rng.randrange(3)] = b   # the storage's first blob operations happen here
+                steps.append('blob')
             elif r < 0.45:
                 root['k%d' % rng.randrange(6)] = MinPO(MinPO(n))
                 sp = tm.savepoint()                 # ids issued while a savepoint (TmpStore) is active
-                root['s%d' % rng.randrange(3)] = MinPO(n)
+                o = MinPO(n)
+                root['s%d' % rng.randrange(3)] = o
+                if rng.random() < 0.5:
+                    conn.add(o)
+                if exported[0] is not None and rng.random() < 0.5:
+                    import io                       # importFile inside the transaction, after a savepoint
+                    root['simp%d' % rng.randrange(3)] = conn.importFile(io.BytesIO(exported[0]))
+                    check('import-after-savepoint')
                 tm.savepoint()
                 if rng.random() < 0.5:
                     sp.rollback()
@@ -673,6 +843,7 @@ def run_conn_case(rng, tmp, idx):
                     import io
                     f = io.BytesIO()
                     conn.exportFile(root[rng.choice(keys)]._p_oid, f)
+                    exported[0] = f.getvalue()
                     f.seek(0)
                     root['imp%d' % rng.randrange(3)] = conn.importFile(f)   # import path: new ids
                     check('import')
@@ -680,10 +851,13 @@ def run_conn_case(rng, tmp, idx):
                     check('commit')
                 present = present_oids(st)
                 steps.append('export-import')
-            elif kind == 'file':
+            elif file_like:
                 tm.abort()
+                tm2.abort()
                 conn.close()
+                conn2.close()
                 db.close()
+                exported[0] = None
                 st = make()
                 lg = LoggedNewOid(st)
                 seen = 0
@@ -691,12 +865,15 @@ def run_conn_case(rng, tmp, idx):
                 present = present_oids(st)
                 db = ZODB.DB(st)
                 conn = db.open(tm)
+                conn2 = db.open(tm2)
                 steps.append('reopen')
             check(steps[-1] if steps else '')
             if bad:
                 break
         tm.abort()
+        tm2.abort()
         conn.close()
+        conn2.close()
         db.close()
     finally:
         shutil.rmtree(d, ignore_errors=True)
@@ -1060,7 +1237,18 @@ def main(argv=None):
         cases_a += corpus
     for i in range(nA):
         cases_a.append(gen_a(rng, 'file' if i % 2 == 0 else 'mapping'))
-    real_runs = [run_real_a(ops, ck.tmp) for ops in cases_a]
+    # half of the generated histories run in pairs: two storages alive at once, steps interleaved
+    real_runs = []
+    i = 0
+    while i < len(cases_a):
+        if i >= len(cases_a) - nA and i + 1 < len(cases_a) and (i // 2) % 2 == 0:
+            a, b = run_real_a_pair(cases_a[i], cases_a[i + 1], ck.tmp, rng)
+            real_runs += [a, b]
+            ck.count('A:interleaved-pairs')
+            i += 2
+        else:
+            real_runs.append(run_real_a(cases_a[i], ck.tmp))
+            i += 1
     bvals = bytes_cases(rng) if (only in (None, 'A')) else []
     model_lines = []
     for (obs, mops, v) in real_runs:
@@ -1075,6 +1263,7 @@ def main(argv=None):
             k = len(m.split('\n'))
             mo.append(model_out[pos + k - 1])
             pos += k
+        ck.count('A:variant:' + ops[0].split()[-1])
         for op in ops:
             ck.count('A:op:' + op.split()[0])
         for o in obs:
